@@ -98,7 +98,8 @@ Lemma restore_stable_writes c n g : tr_writes (restore_stable_service c n g) = [
 Proof. unfold restore_stable_service. destruct (negb (tc_refs c)); [auto|]. destruct (negb (n_stable_exists n)); [auto|].
   destruct (with_grace _ _ _ _ _). cbn. destruct (tc_key c && _); auto. Qed.
 Lemma restore_gateway_writes c n g : tr_writes (restore_gateway c n g) = [] \/ tr_writes (restore_gateway c n g) = [WDeleteRoute].
-Proof. unfold restore_gateway, finalise_routes. destruct (negb (tc_refs c)); [auto|]. destruct (n_route n); destruct (with_grace _ _ _ _ _); cbn; auto. Qed.
+Proof. unfold restore_gateway, finalise_routes. destruct (negb (tc_refs c)); [auto|]. destruct (tc_gateway_fails c); [auto|].
+  destruct (n_route n); destruct (with_grace _ _ _ _ _); cbn; auto. Qed.
 Lemma remove_canary_writes c n g : tr_writes (remove_canary_service c n g) = [] \/ tr_writes (remove_canary_service c n g) = [WDeleteCanarySvc].
 Proof. unfold remove_canary_service. destruct (negb (tc_refs c)); [auto|]. destruct (with_grace _ _ _ _ _). cbn. destruct (n_canary_svc n); auto. Qed.
 
@@ -319,7 +320,7 @@ Lemma restore_gateway_again c n g g' : tc_refs c = true -> tr_ok (restore_gatewa
   tr_writes (restore_gateway c (apply_writes n (tr_writes (restore_gateway c n g))) g') = [].
 Proof.
   intros Hr Hok. pose proof (restore_gateway_ok_effect c n g Hr Hok) as He.
-  unfold restore_gateway at 1. rewrite Hr. cbn [negb]. rewrite He. cbn [finalise_routes].
+  unfold restore_gateway at 1. rewrite Hr. cbn [negb]. destruct (tc_gateway_fails c); [reflexivity|]. rewrite He. cbn [finalise_routes].
   destruct (with_grace _ _ _ _ _). reflexivity.
 Qed.
 
